@@ -310,7 +310,7 @@ int hx_run(const hx_script *s, hx_obs *o) {
     if (s->inspect) s->inspect(c, o, s->inspect_ctx);
 
     hx_in_lib = 1;
-    htp_connp_destroy_all(c);
+    { uint64_t w0 = hx_work; htp_connp_destroy_all(c); o->work_teardown = hx_work - w0; }
     hx_in_lib = 0;
     hx_connp = NULL;
     if (s->cfg.extract_files) { int left = hx_extract_leftovers(); if (left && !s->nfault) hx_verdict_add("C01", "file_left", "%d extracted file(s) still on disk after htp_connp_destroy_all", left); }
